@@ -209,6 +209,27 @@ func loadContext(wantPkgs []string, fileOverlay map[string][]byte, findings *Fin
 				rs = append(rs, r)
 			}
 		}
+		// field templates are expanded textually now that the types are known; the text is then parsed again
+		if cs := c.contracts[pp]; len(cs) > 0 {
+			f := cs[0].File
+			text := ""
+			if ov, ok := c.overlay[f]; ok {
+				text = string(ov)
+			} else if data, rerr := os.ReadFile(f); rerr == nil {
+				text = string(data)
+			}
+			if hasForeach(text) {
+				xt, ferr := expandForeach(text, p)
+				if ferr != nil {
+					return nil, fmt.Errorf("%s: %v", f, ferr)
+				}
+				ncs, perr := parseContractText(xt, f, pp)
+				if perr != nil {
+					return nil, perr
+				}
+				c.contracts[pp] = ncs
+			}
+		}
 		expanded, xerr := expandTemplates(p, c.contracts[pp])
 		if xerr != nil {
 			return nil, xerr
